@@ -190,6 +190,7 @@ let () =
               let t' = read_tok () in
               let id', r = parse_st "st" (rd ()) in
               let _, ya = parse_st "sty" (rd ()) in
+              let w = if r.topo = "C" || r.topo = "NNC" then w else r.topo ^ "." ^ w in
               let r = { r with w = w } in
               assert (id' = int_of_string id);
               Hashtbl.replace pool id' r;
@@ -224,6 +225,7 @@ let () =
               let t' = read_tok () in
               let id', r = parse_st "st" (rd ()) in
               let _, ya = parse_st "sty" (rd ()) in
+              let w = if r.topo = "C" || r.topo = "NNC" then w else r.topo ^ "." ^ w in
               Hashtbl.replace pool id' { r with w = w ^ "/" ^ kind };
               let xo = get (int_of_string x) and yo = get (int_of_string y) in
               let c = { t = rest } in
